@@ -353,6 +353,10 @@ impl Config {
         if let Some(args) = args {
             config.apply_args(args);
         }
+        // the role may come from the command line, which is applied after the environment
+        if config.follower || config.leader {
+            config.use_persistence = true;
+        }
 
         match load_license(config.license_file.as_deref()).await {
             Ok(license) => {
